@@ -12,7 +12,27 @@ use monero::Amount;
 pub const RCT_TYPES: [RctType; 7] = [RctType::Null, RctType::Full, RctType::Simple, RctType::Bulletproof, RctType::Bulletproof2, RctType::Clsag, RctType::BulletproofPlus];
 pub fn rct_num(t: RctType) -> u8 { RCT_TYPES.iter().position(|x| *x == t).unwrap() as u8 }
 
-pub fn key(r: &mut Rng) -> Key { Key::from(r.arr32()) }
+/// 32-byte strings that are special as point encodings: identity, "negative zero" (x = 0 with the sign bit), y = p, p+1, p-1 (non-canonical
+/// y and the order-2 point), y = 0 (order 4), 2^255-1, all ones, an order-8 point — a decoder that normalises, validates or re-compresses
+/// what should be opaque 32-byte fields (commitments, key images, masks) shows on these and on no random string
+pub fn special_point(r: &mut Rng) -> [u8; 32] {
+    let mut b = [0u8; 32];
+    match r.below(11) {
+        0 => { b[0] = 1; }
+        1 => { b[0] = 1; b[31] = 0x80; }
+        2 => { b = [0xff; 32]; b[0] = 0xed; b[31] = 0x7f; }
+        3 => { b = [0xff; 32]; b[0] = 0xee; b[31] = 0x7f; }
+        4 => { b = [0xff; 32]; b[0] = 0xec; b[31] = 0x7f; }
+        5 => { b = [0xff; 32]; b[0] = 0xec; }
+        6 => { }
+        7 => { b[31] = 0x80; }
+        8 => { b = [0xff; 32]; b[31] = 0x7f; }
+        9 => { b = [0xff; 32]; }
+        _ => { b = [0xc7, 0x17, 0x6a, 0x70, 0x3d, 0x4d, 0xd8, 0x4f, 0xba, 0x3c, 0x0b, 0x76, 0x0d, 0x10, 0x67, 0x0f, 0x2a, 0x20, 0x53, 0xfa, 0x2c, 0x39, 0xcc, 0xc6, 0x4e, 0xc7, 0xfd, 0x77, 0x92, 0xac, 0x03, 0x7a]; }
+    }
+    b
+}
+pub fn key(r: &mut Rng) -> Key { if r.chance(1, 16) { Key::from(special_point(r)) } else { Key::from(r.arr32()) } }
 pub fn keys(r: &mut Rng, n: usize) -> Vec<Key> { (0..n).map(|_| key(r)).collect() }
 pub fn key64(r: &mut Rng) -> Key64 { let mut k = [Key::from([0u8; 32]); 64]; for x in k.iter_mut() { *x = key(r); } Key64::from(k) }
 pub fn vi(r: &mut Rng) -> VarInt { VarInt(r.u64_boundary()) }
